@@ -75,13 +75,28 @@ def _run(ctx, prop_mod, replay):
     for what, detail in broken:
         _nofail(ctx, what, detail)
         reported += 1
+    printed = set()
+    if not broken and stats is not None:
+        for k in known.get("findings", []):
+            if k.get("property") == prop_id and hasattr(prop_mod, "check_known"):
+                try:
+                    still = prop_mod.check_known(ctx, k)
+                except Exception:
+                    still = None
+                if still:
+                    print("KNOWN-FINDING: property=%s %s" % (prop_id, k.get("what", "")))
+                    printed.add(k.get("id"))
+                elif still is False:
+                    ctx.notes.append("known finding %s no longer reproduces" % k.get("id"))
     for v in ctx.violations:
         kf = None
         for k in known.get("findings", []):
             if k.get("property") == prop_id and prop_mod.matches_known(k, v):
                 kf = k
         if kf:
-            print("KNOWN-FINDING: property=%s %s" % (prop_id, kf.get("what", "")))
+            if kf.get("id") not in printed:
+                print("KNOWN-FINDING: property=%s %s" % (prop_id, kf.get("what", "")))
+                printed.add(kf.get("id"))
             continue
         p = core.write_replay(ctx, v.get("name", "v%d" % reported), v)
         tail = " no-failing-input-found" if v.get("kind") == "no-failing-input-found" else ""
